@@ -11,7 +11,7 @@ EXTENDS Integers, Sequences, FiniteSets, TLC, Json, IOUtils, SequencesExt
 T == 4
 NoNest == [api |-> "none", n |-> 0, B |-> 0]
 Sc(api, type, n, B, nest, cost, prefill) ==
-  [api |-> api, type |-> type, n |-> n, B |-> B, nest |-> nest, cost |-> cost, prefill |-> prefill]
+  [api |-> api, type |-> type, n |-> n, B |-> B, nest |-> nest, cost |-> cost, prefill |-> prefill, pre |-> "none"]
 
 SignedNs   == {-3, -1, 0, 1, 2, T - 1, T, T + 1, 2 * T + 1, 63, 64, 65, 255, 1000, 32767}
 UnsignedNs == {0, 1, 2, T, 2 * T + 1, 64, 1000}
@@ -34,7 +34,14 @@ Nested ==
 Prefilled ==
   {Sc(a, "i32", n, 3, NoNest, "none", pf) : a \in {"for", "blocks"}, n \in {1, 5, 7, 64, 300}, pf \in {200, 300, 600}}
 
-Scenarios == Flat2 \cup Foreach \cup Blocks2 \cup Nested \cup Prefilled
+\* history: an earlier, unrelated loop of the same process failed (its body threw and the caller caught the exception) or
+\* was cancelled; the loop under observation must be unaffected.  Only the back ends that let an exception leave a loop
+\* take these (the checker selects them); the failed loop itself is history, not an observed call.
+AfterFailure ==
+  {[s EXCEPT !.pre = p] : s \in {x \in Flat2 \cup Foreach \cup Blocks2 \cup Nested : x.type \in {"i32", "sz"} /\ x.n \in {1, 5, 17, 64, 1000} /\ x.cost = "none"},
+                          p \in {"throw", "cancel"}}
+
+Scenarios == Flat2 \cup Foreach \cup Blocks2 \cup Nested \cup Prefilled \cup AfterFailure
 
 ASSUME PrintT(<<"SCENARIOS", Cardinality(Scenarios)>>)
 ASSUME ndJsonSerialize(IOEnv.OUT, SetToSeq(Scenarios))
